@@ -47,8 +47,8 @@ class RSet:
     __slots__ = ('l',)
     def __init__(self): self.l = []
 class RIter:
-    __slots__ = ('l', 'i')
-    def __init__(self, l): self.l = list(l); self.i = 0
+    __slots__ = ('l', 'i', 'attr_iter')
+    def __init__(self, l): self.l = list(l); self.i = 0; self.attr_iter = False
 class RClosure:
     def __init__(self, params, body, env): self.params = params; self.body = body; self.env = env
 class RFn:
@@ -83,6 +83,12 @@ def deep(v):
     return v
 
 # ---------------------------------------------------------------------------------------------- string helpers
+_ZESC = __import__('re').compile(r'\\u\{([0-9a-fA-F]+)\}|\\x([0-9a-fA-F]{2})')
+def zstr(v):
+    """python str of a z3 string value (z3 prints non-ASCII characters as \\u{..} escapes)"""
+    s_ = v.as_string()
+    if '\\' not in s_: return s_
+    return _ZESC.sub(lambda mo: chr(int(mo.group(1) or mo.group(2), 16)), s_)
 def s_norm(parts):
     out = []
     for p in parts:
@@ -172,6 +178,7 @@ class Machine:
         self.pc = []
         self.trace = []; self.prefix = []; self.work = []
         self.hash_order = hash_order     # 'insertion' | 'all'
+        self.perm_full_upto = 4; self.partial_orders = False
         self.release = release           # release profile: integer overflow wraps instead of panicking
         self.domains = {}                # z3 const name -> finite list of python strings (for fork-on-value)
         self.char_ops_forbidden = False  # layer-B harnesses: a character-level look at a symbolic name breaks data independence
@@ -247,7 +254,7 @@ class Machine:
             if z3.is_string_value(a) or z3.is_int_value(a): a, b = b, a
             if z3.is_const(a) and a.decl().kind() == z3.Z3_OP_UNINTERPRETED and (z3.is_string_value(b) or z3.is_int_value(b)):
                 self.known[a.get_id()] = (a, b); self.known_list = None
-                if z3.is_string_value(b): self.known_str[str(a)] = b.as_string()
+                if z3.is_string_value(b): self.known_str[str(a)] = zstr(b)
     def subst(self, cond):
         if not self.known: return cond
         if self.known_list is None: self.known_list = list(self.known.values())
@@ -340,7 +347,7 @@ class Machine:
         return r
     def cs_atom(self, p):
         q = z3.simplify(p)
-        if z3.is_string_value(q): return q.as_string()
+        if z3.is_string_value(q): return zstr(q)
         dom = self.domains.get(str(p)) if z3.is_const(p) else None
         if dom is None: raise Unsupported('character-level operation on unconstrained symbolic string %s' % p)
         if self.char_ops_forbidden:
@@ -929,8 +936,17 @@ def _contains(m, v, x):
         if m.branch(m.eq(y, x)): return True
     return False
 def _perm_choice(m, n):
+    """iteration order of a HashMap/HashSet with n entries: every permutation for n <= m.perm_full_upto; beyond that a covering family
+    (all rotations and their reversals: every pair of entries is seen in both relative orders, every entry is seen first and last)"""
     if m.hash_order != 'all' or n <= 1: return list(range(n))
-    perms = list(itertools.permutations(range(n)))
+    if n <= m.perm_full_upto:
+        perms = list(itertools.permutations(range(n)))
+    else:
+        base = list(range(n)); perms = []
+        for r in range(n):
+            rot = base[r:] + base[:r]
+            perms.append(tuple(rot)); perms.append(tuple(reversed(rot)))
+        m.partial_orders = True
     return list(perms[m.choose(len(perms))])
 def _map_iter(m, mp):
     p = _perm_choice(m, len(mp.l))
